@@ -7,8 +7,13 @@ RECURSIVE Fold(_, _, _, _)
 Fold(m, at, evs, k) ==
   IF k > Len(evs) THEN <<m, at>>
   ELSE LET m2 == A!Step(m, evs[k]) IN Fold(m2, IF at = 0 /\ m2.bad # "ok" THEN k ELSE at, evs, k + 1)
-Judge(tr) == LET r == Fold(A!MonInit({tr.vars[j] : j \in 1..Len(tr.vars)}), 0, tr.events, 1)
-             IN [tid |-> tr.tid, bad |-> r[1].bad, at |-> r[2]]
+\* the verdict is the one under coll = {}.  `explained` says whether a violating history is accepted when the key collisions
+\* of the listed known finding (tr.coll, computed from the finding's fixed description) are taken into account.
+Judge(tr) == LET vs == {tr.vars[j] : j \in 1..Len(tr.vars)}
+                 r == Fold(A!MonInit(vs, {}), 0, tr.events, 1)
+                 c == {<<tr.coll[j][1], tr.coll[j][2]>> : j \in 1..Len(tr.coll)}
+                 r2 == Fold(A!MonInit(vs, c), 0, tr.events, 1)
+             IN [tid |-> tr.tid, bad |-> r[1].bad, at |-> r[2], explained |-> (r[1].bad # "ok" /\ c # {} /\ r2[1].bad = "ok")]
 Init == i = 0
 Next == /\ i < Len(Traces) /\ i' = i + 1 /\ PrintT(ToJson(Judge(Traces[i + 1])))
 =============================================================================
